@@ -19,6 +19,9 @@ func init() {
 	rt.Register("C16_search_arbitrary", VerifHarness_C16_search_arbitrary)
 	rt.Register("C14_step", VerifHarness_C14_step)
 	rt.Register("C20_par2_classify", VerifHarness_C20_par2_classify)
+	rt.Register("C03_verify_sym", VerifHarness_C03_verify_sym)
+	rt.Register("C01_repair_sym", VerifHarness_C01_repair_sym)
+	rt.Register("C16_search_sym", VerifHarness_C16_search_sym)
 }
 
 const (
@@ -107,6 +110,51 @@ func occurs(y, slice []byte) bool {
 		}
 	}
 	return found
+}
+
+func b2u(b bool) uint8 {
+	if b {
+		return 1
+	}
+	return 0
+}
+
+// safelyFindable counts the protected slices that occur in y (zero padding
+// only at end of file) at an offset where no occurrence of any slice at a
+// different offset overlaps them: exactly the slices the property promises
+// will be found (an overlapping second occurrence may legitimately be consumed
+// by the scan first).  Branch-free: everything is computed as 0/1 bytes.
+func safelyFindable(y []byte, slices [][]byte) uint8 {
+	n := len(y)
+	// hit[i] = 1 if some slice occurs at offset i; occ[k][i] for slice k
+	occ := make([][]uint8, len(slices))
+	hit := make([]uint8, n)
+	for k, sl := range slices {
+		occ[k] = make([]uint8, n)
+		for i := 0; i < n; i++ {
+			end := i + scnSlice
+			if end > n {
+				end = n
+			}
+			occ[k][i] = b2u(bytesEqual(padTo(y[i:end], scnSlice), sl))
+			hit[i] |= occ[k][i]
+		}
+	}
+	var count uint8
+	for k := range slices {
+		var found uint8
+		for j := 0; j < n; j++ {
+			alone := occ[k][j]
+			for i := j - scnSlice + 1; i < j+scnSlice; i++ {
+				if i >= 0 && i < n && i != j {
+					alone &= 1 ^ hit[i]
+				}
+			}
+			found |= alone
+		}
+		count += found
+	}
+	return count
 }
 
 func currentFiles(s *scenario) [][]byte {
@@ -387,6 +435,11 @@ func VerifHarness_C16_search_arbitrary() {
 		// a short last slice no longer has its zero padding at end of file
 		full := len(s.orig[0]) / scnSlice
 		rt.Assert(res.ShardCounts.UsableDataShardCount >= full, "bytes appended: every full slice is still found")
+	}
+	if cur, ok := s.fs.files[s.paths[0]]; ok {
+		rt.Assert(res.ShardCounts.UsableDataShardCount >= int(safelyFindable(cur, slicesOf(s.orig[0]))), "every slice that survives at a non-overlapped offset is counted usable")
+	}
+	switch kind {
 	case dmgOverwriteSlice:
 		rt.Assert(res.ShardCounts.UsableDataShardCount >= n-1, "one slice overwritten: all other slices are found")
 	case dmgTruncate:
@@ -434,4 +487,36 @@ func VerifHarness_C20_par2_classify() {
 	_, err := repair(s.fs, scnIndex, RepairOptions{NumGoroutines: 1})
 	rt.Assert(err != nil, "two slices lost, at most one block: Repair fails")
 	rt.Assert(RepairErrorMeansRepairNecessaryButNotPossible(err), "the error is classified as repair necessary but not possible")
+}
+
+// ---- thorough tier: fully symbolic file contents (every byte a solver variable) ----
+
+func symLens() []int { return []int{[]int{4, 5}[rt.Choice("len", 2)]} }
+
+func VerifHarness_C03_verify_sym() {
+	s := buildArchiveMode(symLens(), 1, 1, contentSymbolic)
+	damage(s, 0, rt.Choice("kind", dmgKinds-1), "a")
+	_, err := checkVerify(s, 1)
+	rt.Assert(err == nil, "Verify returns a result")
+}
+
+func VerifHarness_C01_repair_sym() {
+	s := buildArchiveMode(symLens(), 2, 1, contentSymbolic)
+	kind := rt.Choice("kind", dmgKinds-1)
+	damage(s, 0, kind, "a")
+	_, err := checkRepair(s, false, 1)
+	if lost := expectedLost(s.orig[0], kind); lost >= 0 && lost <= 2 {
+		rt.Assert(err == nil, "damage within recovery capacity: Repair succeeds")
+		rt.Reach("repaired")
+	}
+}
+
+func VerifHarness_C16_search_sym() {
+	s := buildArchiveMode(symLens(), 1, 1, contentSymbolic)
+	kind := []int{dmgInsertFront, dmgTruncate, dmgAppend}[rt.Choice("kind", 3)]
+	damage(s, 0, kind, "a")
+	res, err := verify(s.fs, scnIndex, VerifyOptions{NumGoroutines: 1})
+	rt.Assert(err == nil, "Verify returns a result")
+	cur := s.fs.files[s.paths[0]]
+	rt.Assert(res.ShardCounts.UsableDataShardCount >= int(safelyFindable(cur, slicesOf(s.orig[0]))), "every slice that survives at a non-overlapped offset is counted usable")
 }
